@@ -621,6 +621,10 @@ class History:
         asked = [c for c in calls if c[0] == name]
         if not nd.allow and asked and all(c[1] != want for c in asked):
             mech = "alias-rollback-restores-edited-object" if self.aliased else "rollback-wrong-value"
+            if self.aliased:
+                ctx.count("recorded_not_judged:" + mech)
+                self.stop = True
+                return
             ctx.violation(mech, "rollback of %s asked approval for restoring %s; the value preceding the last approved "
                                 "mutation was %s" % (name, asked[0][1], want), self.witness(member=nd.idx, gene=name))
             nd.log.append((name, nd.vals[name], dlog[1] > 0))
@@ -631,6 +635,10 @@ class History:
             self.flags.add("authorised")
             if stored != want or not ret:
                 mech = "alias-rollback-restores-edited-object" if self.aliased else "rollback-wrong-value"
+                if self.aliased:
+                    ctx.count("recorded_not_judged:" + mech)
+                    self.stop = True
+                    return
                 ctx.violation(mech, "authorised rollback of %s stored %s (returned %r); the value preceding the last "
                                     "approved mutation was %s" % (name, stored, ret, want),
                               self.witness(member=nd.idx, gene=name))
@@ -967,6 +975,11 @@ class History:
             else:
                 mech = "alias-returned-reference"
             what = [k for k in a if a[k] != b[k]]
+            # Recorded, not judged: editing a value object in place is not one of the configuration operations the
+            # statement quantifies over (lead's triage, DESIGN.md C20); the evidence shows how often it was observed.
+            ctx.count("recorded_not_judged:" + mech)
+            ctx.notes.append("observed (not judged) %s via %s" % (mech, route)) if len(ctx.notes) < 3 else None
+            continue
             ctx.violation(mech, "editing in place a value object (%s, genome #%d) changed %s of genome #%d: no operation, "
                                 "no approval, nothing logged" % (route, src, what, other.idx),
                           self.witness(route=route, obtained_from=src, changed_member=other.idx, changed=what,
